@@ -545,3 +545,126 @@ def value_case(case: dict) -> dict:
             raise
         out["reparse_fail"] = _exc(e)
     return out
+
+
+# ---------------------------------------------------------------------------
+# C07 / C20: robustness on damaged texts
+
+def _call(f):
+    try:
+        with time_limit(20):
+            return {"res": "ok", "mro": [], "val": f()}
+    except BaseException as e:  # noqa: BLE001
+        if isinstance(e, (KeyboardInterrupt, SystemExit)):
+            raise
+        return {"res": type(e).__name__, "mro": [c.__name__ for c in type(e).__mro__], "val": None, "msg": str(e)[:200]}
+
+
+def robust_case(text: str) -> dict:
+    from nix_manipulator.cli.manipulations import remove_value, set_value
+    from nix_manipulator.parser import parse
+    out: dict = {}
+    r = _call(lambda: parse(text).rebuild())
+    out["rebuild"] = {"res": r["res"], "mro": r["mro"], "same_bytes": r["val"] == text, "msg": r.get("msg")}
+    o, s, _e = _run_main(["test"], text)
+    out["test"] = {"out": "OK" if o == "OK\n" else "Fail" if o == "Fail\n" else "other", "status": s if isinstance(s, int) else 1}
+    for name, f in (("set", lambda: set_value(parse(text), "a", "1")), ("rm", lambda: remove_value(parse(text), "a")),
+                    ("value", lambda: set_value(parse("{ a = 1; }\n"), "a", text))):
+        r = _call(f)
+        out[name] = {"res": r["res"], "mro": r["mro"], "msg": r.get("msg"), "out": r["val"]}
+    o, s, _e = _run_main(["set", "a", "1"], text)
+    out["cli_set"] = {"stdout_empty": o == "", "status": s if isinstance(s, int) else 1}
+    return out
+
+
+# ---------------------------------------------------------------------------
+# C20: renderer-call counts for nesting families
+
+_COUNT = {"n": 0}
+_PATCHED = False
+
+
+def _patch_rebuild_counters():
+    """Wrap every expression class's rebuild with a counter (no change to the repository)."""
+    global _PATCHED
+    if _PATCHED:
+        return
+    import importlib
+    import pkgutil
+    import nix_manipulator.expressions as pkg
+    from nix_manipulator.expressions.expression import NixExpression
+    for m in pkgutil.walk_packages(pkg.__path__, pkg.__name__ + "."):
+        importlib.import_module(m.name)
+    import nix_manipulator.expressions.source_code  # noqa: F401
+
+    def subclasses(c):
+        for s in c.__subclasses__():
+            yield s
+            yield from subclasses(s)
+    for cls in set(subclasses(NixExpression)):
+        if "rebuild" in cls.__dict__:
+            orig = cls.__dict__["rebuild"]
+
+            def make(o):
+                def counted(self, *a, **k):
+                    _COUNT["n"] += 1
+                    return o(self, *a, **k)
+                return counted
+            setattr(cls, "rebuild", make(orig))
+    _PATCHED = True
+
+
+def work_case(case: dict) -> dict:
+    import time
+    from nix_manipulator.parser import parse
+    _patch_rebuild_counters()
+    out = {}
+    for tag, depth in (("c1", case["d"]), ("c2", 2 * case["d"])):
+        text = "1"
+        frames = case["frames"]
+        for i in range(depth):
+            pre, post = frames[(depth - 1 - i) % len(frames)]
+            text = pre + text + post
+        _COUNT["n"] = 0
+        t0 = time.process_time()
+        try:
+            with time_limit(case.get("limit", 5)):
+                parse(text + "\n").rebuild()
+            out[tag] = _COUNT["n"]
+        except CaseTimeout:
+            out[tag] = _COUNT["n"]
+            out["timeout"] = True
+            out["cpu_" + tag] = round(time.process_time() - t0, 3)
+            break
+        except BaseException as e:  # noqa: BLE001
+            if isinstance(e, (KeyboardInterrupt, SystemExit)):
+                raise
+            out[tag] = _COUNT["n"]
+            out["raised"] = _exc(e)
+            break
+        out["cpu_" + tag] = round(time.process_time() - t0, 3)
+    return out
+
+
+def long_file_case(n: int) -> dict:
+    """Width dimension: n bindings / n-element operator chain; renderer calls must grow linearly."""
+    import time
+    from nix_manipulator.parser import parse
+    _patch_rebuild_counters()
+    out = {}
+    for tag, k in (("c1", n), ("c2", 2 * n)):
+        for shape in ("bindings", "chain", "list"):
+            text = ("{\n" + "".join(f"  a{i} = {i};\n" for i in range(k)) + "}\n") if shape == "bindings" else \
+                (" + ".join(f"a{i}" for i in range(min(k, 150 if tag == "c1" else 300))) + "\n") if shape == "chain" else ("[\n" + "".join(f"  a{i}\n" for i in range(k)) + "]\n")
+            _COUNT["n"] = 0
+            t0 = time.process_time()
+            try:
+                with time_limit(30):
+                    parse(text).rebuild()
+            except BaseException as e:  # noqa: BLE001
+                if isinstance(e, (KeyboardInterrupt, SystemExit)):
+                    raise
+                out[f"{shape}_fail"] = _exc(e)
+            out[f"{shape}_{tag}"] = _COUNT["n"]
+            out[f"{shape}_cpu_{tag}"] = round(time.process_time() - t0, 3)
+    return out
